@@ -65,7 +65,7 @@ fn main() {
         let mut g = Gen::new(Profile::by_name(&profile), &ex.cx);
         let mut lines: Vec<J> = vec![json!({"e": "reset", "cfg": cfg.to_json(), "hdr": mem_header(&ex), "disk": decode_header(&ex.store.bytes())})];
         // kind of the commit the open write transaction will make
-        let (mut nd, mut tp) = (false, false);
+        let (mut nd, mut tp, mut sp) = (false, false, false);
         let mut consumed = 0usize;
         let mut emit_ops = |ex: &Exec, lines: &mut Vec<J>, upto: usize, consumed: &mut usize| {
             let log: Vec<Op> = {
@@ -86,12 +86,13 @@ fn main() {
                 });
             }
         };
-        let mut run_step = |ex: &mut Exec, g: &mut Gen, step: J, lines: &mut Vec<J>, nd: &mut bool, tp: &mut bool, consumed: &mut usize| {
+        let mut run_step = |ex: &mut Exec, g: &mut Gen, step: J, lines: &mut Vec<J>, nd: &mut bool, tp: &mut bool, sp: &mut bool, consumed: &mut usize| {
             let e = step["e"].as_str().unwrap().to_string();
             match e.as_str() {
                 "bw" => {
                     *nd = false;
                     *tp = false;
+                    *sp = false;
                 }
                 "dur" => *nd = step["d"] == "none",
                 "2pc" | "qr" => *tp = *tp || step["on"].as_bool().unwrap(),
@@ -100,7 +101,7 @@ fn main() {
             let before = ex.store.log_len();
             if e == "commit" {
                 emit_ops(ex, lines, before, consumed);
-                lines.push(json!({"e": "cbegin", "kind": if *nd { "nd" } else if *tp { "2pc" } else { "1pc" }}));
+                lines.push(json!({"e": "cbegin", "kind": if *nd { "nd" } else if *tp { "2pc" } else { "1pc" }, "sp": *sp}));
             } else if matches!(e.as_str(), "reopen" | "compact" | "integrity" | "abort" | "dropw") {
                 emit_ops(ex, lines, before, consumed);
                 lines.push(json!({"e": "mbegin", "what": e}));
@@ -108,9 +109,10 @@ fn main() {
             let evs = ex.step(&step);
             g.observe(&evs);
             let after = ex.store.log_len();
-            // a transaction that creates a persistent savepoint commits two-phase (fix recorded in known_findings.txt)
+            // a transaction that created a persistent savepoint writes everything out before its commit slot (fix
+            // recorded in known_findings.txt)
             if e == "spp" && evs.iter().any(|x| x["e"] == "spp" && x["r"].get("ok").is_some()) {
-                *tp = true;
+                *sp = true;
             }
             emit_ops(ex, lines, after, consumed);
             if e == "commit" {
@@ -123,14 +125,14 @@ fn main() {
         let mut i = 0;
         while i < steps {
             let step = g.next(&mut rng);
-            run_step(&mut ex, &mut g, step, &mut lines, &mut nd, &mut tp, &mut consumed);
+            run_step(&mut ex, &mut g, step, &mut lines, &mut nd, &mut tp, &mut sp, &mut consumed);
             i += 1;
         }
         while let Some(step) = g.drain_one() {
-            run_step(&mut ex, &mut g, step, &mut lines, &mut nd, &mut tp, &mut consumed);
+            run_step(&mut ex, &mut g, step, &mut lines, &mut nd, &mut tp, &mut sp, &mut consumed);
         }
         for step in g.final_steps() {
-            run_step(&mut ex, &mut g, step, &mut lines, &mut nd, &mut tp, &mut consumed);
+            run_step(&mut ex, &mut g, step, &mut lines, &mut nd, &mut tp, &mut sp, &mut consumed);
         }
         lines.push(json!({"e": "mbegin", "what": "close"}));
         ex.teardown();
